@@ -304,11 +304,18 @@ def main(run):
             for n in rng.sample(sorted(set(pdn)), min(len(set(pdn)), rng.randint(0, 2))):
                 p = [x for x in pt.call_parameters if x.name == n][0]
                 pars[n + "_pd"] = rng.uniform(0.05, 0.25) if p.relative_pd else rng.uniform(3, 15)
-                pars[n + "_pd_n"] = rng.choice([3, 5, 8])
+                pars[n + "_pd_n"] = rng.choice([3, 5, 8, 1, 0])      # 0 or 1 point with a non-zero width: the single central value (0 for an angle)
                 if rng.random() < 0.5:
                     pars[n + "_pd_nsigma"] = rng.choice([2.0, 3.0])
                 if rng.random() < 0.5:
                     pars[n + "_pd_type"] = rng.choice(["gaussian", "rectangle", "schulz" if p.relative_pd else "gaussian", "lognormal" if p.relative_pd else "uniform"])
+            # 2-D, oriented: one angle carries a width but only one (or no) point - the jitter distribution degenerates to
+            # its centre, which for an angle is 0, not the view angle
+            if dim2 and oriented:
+                an_ = rng.choice([p.name for p in pt.call_parameters if p.type == "orientation"])
+                pars[an_] = rng.uniform(20, 70)
+                pars[an_ + "_pd"] = rng.uniform(5, 20); pars[an_ + "_pd_n"] = rng.choice([0, 1]); pars.pop(an_ + "_pd_type", None)
+                stats["one_point_jitter"] = stats.get("one_point_jitter", 0) + 1
             sv_pars = {k: v for k, v in pars.items() if k != mult_info.control}
             desc = dict(model=name, pars=pars, multiplicity=mult, dim="2d" if dim2 else "1d")
             try:
